@@ -186,9 +186,11 @@ func init() {
 			{Pkg: ix, Func: "ZZ_C07_Merge", Desc: "two files, up to two streams each", Quick: tier(M(2, 1, 0, 1, 1, 1, 1, 3, 1, 1, 1, 1)), Thorough: tier(M(2, 1, 1, 1, 1, 1, 1, 3, 1, 1, 2, 1))},
 			{Pkg: ix, Func: "ZZ_C07_Merge", Desc: "two files, two streams each, first-packet times earlier/later (time re-basing)", Quick: tier(M(2, 1, 0, 1, 1, 3, 1, 2, 1, 1, 1, 1, 1)), Thorough: tier(M(2, 1, 1, 1, 1, 3, 1, 3, 1, 1, 1, 1, 1))},
 			{Pkg: ix, Func: "ZZ_C07_Merge", Desc: "three files, suffix of 2 or 3 merged", Quick: tier(M(1, 1, 0, 1, 1, 1, 1, 2, 2, 1)), Thorough: tier(M(1, 1, 1, 1, 1, 2, 1, 3, 2, 1))},
+			{Pkg: ix, Func: "ZZ_C07_Merge", Desc: "three files, the merge result merged again with the older file", Quick: tier(func() map[string]int { m := M(1, 1, 0, 1, 1, 1, 1, 2, 2, 1); m["remerge"] = 1; return m }()),
+				Bounds: "as the three-file entry; when the two newer files were merged, the result and the older file are merged again: one version per id, every id still resolves to its newest version"},
 		},
 		Assumptions: []string{"as C01; clock = deterministic increasing instants (file names of merge outputs)", "oracle: the newest version of every id, compared field by field, payload and packet references included"},
-		Outside: []string{"merging an already merged output again", "search results over both stacks (C02)", "writer overflow paths", "more than 3 files"},
+		Outside: []string{"more than one re-merge", "search results over both stacks (C02)", "writer overflow paths", "more than 3 files"},
 	}
 
 	S := func(kv ...int) map[string]int {
